@@ -208,11 +208,35 @@ theorem writeGutter_strip (v : String) (w : Nat) (h : NoEsc v) :
   exact (((Strips.ansi _ (NoEsc_padLeft _ _ h)).append (Strips.of_noEsc (by decide))).append
     (Strips.ansi _ (by decide))).append (Strips.of_noEsc (by decide))
 
+/-- `writeRiser` after its two normalisation steps (`normSt`), any painter -/
+def riserCoreP (paint : Style → String → String) (color : Bool) (h : Highlight) (line : Nat)
+    (st : Riser) (active : Bool) : String × Riser :=
+  match st with
+  | .unused => ("", .unused)
+  | .ended => (" ", .ended)
+  | .waiting =>
+    if line == h.span.s.line && !active && h.span.s.col == 0 && !h.hasMessageForLine line then
+      ((if color then paint ⟨h.mtype.color, false⟩ "/" else "/"), .started)
+    else if line == h.span.s.line && active then (" ", .started)
+    else (" ", .waiting)
+  | .started =>
+    if line == h.span.e.line && !active && h.span.e.col == 0 && !h.hasMessageForLine line then
+      ((if color then paint ⟨h.mtype.color, false⟩ "\\" else "\\"), .ended)
+    else if line == h.span.e.line && active then ("|", .ended)
+    else ("|", .started)
+
+theorem writeRiser_eqP (paint : Style → String → String) (color : Bool) (h : Highlight)
+    (line : Nat) (st : Riser) (active : Bool) :
+    writeRiser paint color h line st active =
+      riserCoreP paint color h line (normSt h line st) active := rfl
+
 theorem writeRiser_strip (h : Highlight) (line : Nat) (st : Riser) (active : Bool) :
     Strips (writeRiser ansi true h line st active).1 (writeRiser plainPaint true h line st active).1 ∧
       (writeRiser ansi true h line st active).2 = (writeRiser plainPaint true h line st active).2 := by
+  rw [writeRiser_eqP, writeRiser_eqP]
+  generalize normSt h line st = st'
   constructor
-  · cases st <;> simp only [writeRiser, if_true]
+  · cases st' <;> simp only [riserCoreP, if_true]
     · exact Strips.empty
     · split
       · exact Strips.ansi _ (by decide)
@@ -221,7 +245,7 @@ theorem writeRiser_strip (h : Highlight) (line : Nat) (st : Riser) (active : Boo
       · exact Strips.ansi _ (by decide)
       · split <;> exact Strips.of_noEsc (by decide)
     · exact Strips.of_noEsc (by decide)
-  · cases st <;> simp only [writeRiser] <;> (repeat' split) <;> rfl
+  · cases st' <;> simp only [riserCoreP] <;> (repeat' split) <;> rfl
 
 theorem writeRisers_strip (line : Nat) (act : Option Nat) (i : Nat) (hls : List Highlight)
     (sts : List Riser) :
